@@ -318,12 +318,20 @@ def h_compound(op, m):
     from regions import CirclePixelRegion, RectanglePixelRegion, PixCoord
     shims(m)
     _compound_shims(m)
-    cx, cy, r = m.real('cx'), m.real('cy'), m.pos('r', hi=0.7)
-    dx, dy = cx + m.real('dx', lo=-1, hi=1), cy + m.real('dy', lo=-1, hi=1)
-    w, h = m.pos('w', hi=1), m.pos('h', hi=1)
+    small = op.endswith('-callable')          # the quick-tier case: smaller operands, fewer box shapes
+    cx, cy, r = m.real('cx'), m.real('cy'), m.pos('r', hi=0.4 if small else 0.7)
+    dx, dy = cx + m.real('dx', lo=-0.3 if small else -1, hi=0.3 if small else 1), cy + m.real('dy', lo=-0.3 if small else -1, hi=0.3 if small else 1)
+    w, h = m.pos('w', hi=0.5 if small else 1), m.pos('h', hi=0.5 if small else 1)
     a = CirclePixelRegion(PixCoord(cx, cy), r)
     b = RectanglePixelRegion(PixCoord(dx, dy), w, h)
-    comp = {'or': a | b, 'and': a & b, 'xor': a ^ b}[op]
+    from regions import CompoundPixelRegion
+    if op.endswith('-callable'):
+        # the same operators given as other legitimate callables through the public constructor
+        op = op.split('-')[0]
+        fn = {'or': np.logical_or, 'and': (lambda p_, q_: np.logical_and(p_, q_)), 'xor': np.bitwise_xor}[op]
+        comp = CompoundPixelRegion(a, b, fn)
+    else:
+        comp = {'or': a | b, 'and': a & b, 'xor': a ^ b}[op]
     f = {'or': Or, 'and': And, 'xor': chk.Xor}[op]
     mask = comp.to_mask(mode='center')
     box_checks(m, 'center', comp, mask)
@@ -343,6 +351,28 @@ def h_compound(op, m):
             m.require(f'compound {op}: pixel[{j},{i}] = {op}(member_a, member_b) at the pixel centre',
                       Implies(off, Iff(v == 1, f(ina(X, Y), inb(X, Y)))))
             m.require(f'compound {op}: pixel[{j},{i}] is 0 or 1', Or(v == 0, v == 1))
+
+
+def h_compound_callable_executed(m):
+    """EXECUTED (no symbolic input): a compound built through the public constructor with other legitimate and / or / xor
+    callables (numpy ufuncs, a lambda) has the mask and the membership of the corresponding Python operator"""
+    import operator
+    from regions import CirclePixelRegion, RectanglePixelRegion, CompoundPixelRegion, PixCoord
+    a = CirclePixelRegion(PixCoord(3.2, 4.1), 2.3)
+    b = RectanglePixelRegion(PixCoord(4.6, 3.4), 3.0, 2.0, angle=20 * u.deg)
+    pts = PixCoord(np.array([3.0, 5.5, 4.2, 0.0, 4.4]), np.array([4.0, 3.3, 3.9, 0.0, 6.2]))
+    for name, ref, others in (('and', operator.and_, (np.logical_and, np.bitwise_and, lambda p_, q_: p_ & q_)),
+                              ('or', operator.or_, (np.logical_or, np.bitwise_or, lambda p_, q_: p_ | q_)),
+                              ('xor', operator.xor, (np.logical_xor, np.bitwise_xor, lambda p_, q_: p_ ^ q_))):
+        want = CompoundPixelRegion(a, b, ref)
+        wm = want.to_mask()
+        for k_, fn in enumerate(others):
+            got = CompoundPixelRegion(a, b, fn)
+            gm = got.to_mask()
+            m.require(f'{name} given as callable #{k_}: same mask as the Python operator',
+                      gm.bbox == wm.bbox and gm.data.shape == wm.data.shape and bool(np.all(gm.data == wm.data)))
+            m.require(f'{name} given as callable #{k_}: same membership as the Python operator',
+                      bool(np.all(np.asarray(got.contains(pts)) == np.asarray(want.contains(pts)))))
 
 
 def h_modes(kind, m):
@@ -453,9 +483,17 @@ def h_polygon_plumbing(variant, m):
     m.shim('regions.shapes.polygon', 'polygonal_overlap_grid', recorder, both=True)
     dt = object if m.sym else float
     cx, cy = m.real('vx0'), m.real('vy0')
-    vx = [cx] + [cx + m.real(f'ex{i}') for i in (1, 2)]
-    vy = [cy] + [cy + m.real(f'ey{i}') for i in (1, 2)]
-    if variant == 'plain':
+    nv = 5 if variant == 'five-vertices' else 3
+    if nv == 5:
+        # a fixed quadrilateral at a symbolic position plus a fifth vertex anywhere in a small square next to the first one
+        # (keeps the number of bounding-box shapes small)
+        e, f = m.real('ex4', lo=0, hi=0.125), m.real('ey4', lo=0, hi=0.125)
+        vx = [cx, cx + 1.5, cx + 1.25, cx + 0.25, cx + e]
+        vy = [cy, cy + 0.25, cy + 1.5, cy + 1.25, cy + f]
+    else:
+        vx = [cx] + [cx + m.real(f'ex{i}') for i in range(1, nv)]
+        vy = [cy] + [cy + m.real(f'ey{i}') for i in range(1, nv)]
+    if variant in ('plain', 'five-vertices'):
         reg = PolygonPixelRegion(PixCoord(np.array(vx, dtype=dt), np.array(vy, dtype=dt)))
     elif variant == 'origin':
         ox, oy = m.real('ox'), m.real('oy')
@@ -478,8 +516,8 @@ def h_polygon_plumbing(variant, m):
     m.require('grid size = box shape', And(rec['nx'] == bb.ixmax - bb.ixmin, rec['ny'] == bb.iymax - bb.iymin))
     kvx = list(np.asarray(rec['vx'], dtype=object).reshape(-1))
     kvy = list(np.asarray(rec['vy'], dtype=object).reshape(-1))
-    m.require('kernel receives the current vertices', len(kvx) == 3 and len(kvy) == 3 and
-              And(*[And(kvx[i] == vx[i], kvy[i] == vy[i]) for i in range(3)]))
+    m.require('kernel receives the current vertices (all of them, in order)', len(kvx) == nv and len(kvy) == nv and
+              And(*[And(kvx[i] == vx[i], kvy[i] == vy[i]) for i in range(min(nv, len(kvx)))]))
     m.require('sub-sampling mode and factor', rec['use_exact'] == 0 and rec['subpixels'] == 3)
 
 
@@ -577,9 +615,10 @@ def harnesses(tier):
     for n in ([1, 2] if q else [1, 2, 3, 4]):
         hs.append((f'ellipse/kernel-lemma/n={n}', P(h_ellipse_kernel, n)))
     hs.append(('regular-polygon/plumbing', h_regpoly_plumbing))
-    for v in ('plain', 'origin', 'reassign'):
+    for v in ('plain', 'origin', 'reassign', 'five-vertices'):
         hs.append((f'polygon/plumbing/{v}', P(h_polygon_plumbing, v)))
     hs.append(('modes/compound', h_compound_modes))
+    hs.append(('compound/callable-operators (executed)', h_compound_callable_executed))
     for kind in ('circle', 'ellipse', 'rectangle', 'polygon', 'point', 'line', 'text'):
         hs.append((f'modes/{kind}', P(h_modes, kind)))
     if not q:
